@@ -307,12 +307,19 @@ NatBits(v, w) == IF w = 0 THEN <<>> ELSE <<IF v % 2 = 1 THEN "1" ELSE "0">> \o N
 Flip(bs) == [i \in DOMAIN bs |-> IF bs[i] = "1" THEN "0" ELSE "1"]
 IntBits(v, w) == IF v >= 0 THEN NatBits(v, w) ELSE Flip(NatBits((-v) - 1, w))     \* two's complement, LSB first
 
+(* digits bs (LSB first) extended to w digits: with the sign digit for a negative number, with 0 otherwise *)
+ExtBits(bs, w, neg) == [i \in 1..w |-> IF i <= Len(bs) THEN bs[i] ELSE IF neg THEN "1" ELSE "0"]
+
 (* the value the design gave (e) is the value the document carries (g).  An integer is written either *)
 (* as a plain integer or Verilog-like as a constant of at least 32 bits, signed when negative.     *)
 ConstMatches(e, g, flags) ==
     IF e[1] = "int"
     THEN \/ g[1] = "int" /\ g[2] = e[2]
          \/ g[1] = "bits" /\ g[2] >= 32 /\ g[3] = IntBits(e[2], g[2]) /\ (flags /\ e[2] < 0 => g[4] = "signed")
+    ELSE IF e[1] = "wint"     \* an integer beyond 32 bits: <<"wint", 0, minimal digits LSB first, "neg" | "">>
+    THEN \/ g[1] = "wint" /\ g[3] = e[3] /\ g[4] = e[4]
+         \/ g[1] = "bits" /\ g[2] >= 32 /\ g[2] >= Len(e[3]) /\ g[3] = ExtBits(e[3], g[2], e[4] = "neg")
+                          /\ (flags /\ e[4] = "neg" => g[4] = "signed")
     ELSE IF e[1] = "bits"
     THEN g[1] = "bits" /\ g[2] = e[2] /\ g[3] = e[3] /\ (flags => g[4] = e[4])
     ELSE g[1] = e[1] /\ g[4] = e[4]
